@@ -558,7 +558,7 @@ def cases_dispatch(rng, gr, n):
                    '1px 2px 3px 4px 5px', 'red', 'solid', '1px solid red', 'red solid 1px', 'solid red', '1px 1px',
                    'red red', 'inherit 1px', '1px / 2px', '1px 2px / 3px 4px 5px', '/ 1px', '1px /', '1px / 2px / 3px',
                    'none', '1', '1 2', '1 2 3px', '3px 1 2', '1 3px 2', '0', '0 0', '0 0 0', '0px', 'auto', 'auto 2',
-                   '2 auto', 'auto auto', '2 3', '10px 20px', '10px 2', '2 10px', '2.0', '1.5 2.5 content', '-1',
+                   '2 auto', 'auto auto', 'auto 10px', '10px auto', '2 3', '10px 20px', '10px 2', '2 10px', '2.0', '1.5 2.5 content', '-1',
                    'content', '1 1 1 1']]
     return ([{'fn': 'dispatch_case', **c} for c in corpus('dispatch')] + fixed +
             [gen_dispatch(rng, gr) for _ in range(n)])
@@ -1332,6 +1332,241 @@ def stream_render(run, cases, outs):
                          'declaration) between two good rules vs absent; probe: the fixed witnesses of the open findings, each with its control pair (a deviation is filed under an open finding only when the pair differs AND the control pair - the same documents without the suspected cause - agrees); compute: any accepted value of any property, the name in another case between two void declarations (all computed values are read). Placement: author rule, style attribute, !important')
 
 
+# ================================================================================ 5b. one rule with var(), several elements
+
+# The Pending object of a declaration with var() is shared by all the elements its rule matches and by all the
+# longhands of a shorthand: what it gives for one element must not depend on the others.
+SHARED_DECLS = [
+    ('margin-left', 'var(--m)'), ('margin-left', 'var(--m, 3px)'), ('padding', 'var(--p) 2px'), ('padding', '2px var(--p)'),
+    ('padding', 'var(--p)'), ('margin', 'var(--m)'), ('margin', '1px var(--m) 3px'), ('border-width', '1px var(--w)'),
+    ('border-style', 'var(--s)'), ('border-color', 'var(--c) blue'), ('border', 'var(--w) solid var(--c, black)'),
+    ('border-top', 'var(--w) var(--s)'), ('border-left', 'var(--s) var(--c) var(--w)'), ('flex', 'var(--f) 10px'),
+    ('flex', 'var(--f)'), ('columns', 'var(--n)'), ('columns', 'var(--n) 50px'), ('font', 'var(--fs) weasyprint'),
+    ('font', 'italic var(--fs)/var(--lh) weasyprint'), ('color', 'var(--c)'), ('color', 'var(--c, blue)'),
+    ('width', 'var(--u)'), ('width', 'var(--u, 70px)'), ('border-radius', 'var(--r) / 2px'),
+    ('text-decoration', 'underline var(--t)'), ('list-style', 'var(--l) inside'), ('background', 'var(--c)'),
+    ('outline', 'var(--w) solid'), ('line-height', 'var(--lh)'), ('text-indent', 'var(--m)'),
+    ('letter-spacing', 'var(--m)'), ('display', 'var(--d)'), ('font-size', 'var(--fs)'), ('gap', 'var(--m)'),
+    ('font-weight', 'var(--fw, bold)'), ('text-align', 'var(--ta)'), ('float', 'var(--fl)'),
+]
+SHARED_VALUES = ['4px', '0', '1em', '10%', '4px 8px', '1px 2px 3px', '1px 2px 3px 4px', '1px 2px 3px 4px 5px', 'red', '#fff',
+                 'solid', 'dotted', 'auto', 'none', 'bold', '2', '1.5', '12px', 'large', 'italic', 'thin', 'block',
+                 'inline-block', 'foo', '"s"', '2 3', '50px 2', 'underline', 'wavy', 'square', '-1px', '1px solid',
+                 'blue', '30px', '100', 'left', 'center', 'rgb(1, 2, 3)', '8px 4px', 'normal', '3', 'medium']
+SHARED_PRE = ('padding:7px;margin:5px;border:2px dotted green;color:green;width:150px;flex:2 2 20px;columns:3;'
+              'font:bold 14px/20px weasyprint;border-radius:3px;text-decoration:overline;list-style:square;'
+              'background:yellow;outline:1px dashed;text-indent:2px;letter-spacing:1px;gap:2px;text-align:right')
+VAR_RE = re.compile(r'var\(\s*(--[\w-]+)\s*(?:,\s*([^()]*?)\s*)?\)')
+
+
+def substitute(template, effective, erase_undefined=False):
+    """the text of a declaration value after substitution; None = guaranteed-invalid (an undefined property
+    without fallback).  erase_undefined: what finding var:undefined-dropped computes instead - the var() erased"""
+    bad = []
+
+    def repl(m):
+        name, fb = m.group(1), m.group(2)
+        if name in effective:
+            return effective[name]
+        if fb is not None:
+            return fb
+        bad.append(name)
+        return ''
+    out = VAR_RE.sub(repl, template)
+    return None if (bad and not erase_undefined) else out
+
+
+def gen_shared_values(rng, names):
+    """custom properties of one element: its own, its parent's"""
+    own, parent = {}, {}
+    for n in names:
+        r = rng.random()
+        if r < 0.62:
+            own[n] = rng.choice(SHARED_VALUES)
+        elif r < 0.80:
+            parent[n] = rng.choice(SHARED_VALUES)
+        elif r < 0.88:
+            own[n] = rng.choice(SHARED_VALUES)
+            parent[n] = rng.choice(SHARED_VALUES)
+        # else undefined
+    return own, parent
+
+
+def shared_case(decl_list, elems):
+    """elems: [(own, parent)] -> the case for impl_c07.shared_pair"""
+    body, specs = [], []
+    for i, (own, parent) in enumerate(elems):
+        eid = 'e%d' % (i + 1)
+        st = lambda d: ';'.join('%s:%s' % kv for kv in d.items()).replace('"', '&quot;')
+        body.append('<div style="%s"><div class=x id=%s style="%s">ab cd<span>ef</span></div></div>' % (st(parent), eid, st(own)))
+        eff = dict(parent)
+        eff.update(own)
+        specs.append(dict(id=eid, subst=[substitute(v, eff) for _, v in decl_list],
+                          erased=[substitute(v, eff, True) for _, v in decl_list]))
+    template = ('<style>@page{size:300px 400px;margin:10px}html{font-family:weasyprint;font-size:10px;line-height:12px}'
+                'body{margin:0}.x{' + SHARED_PRE + '}@@RULES@@</style><body>' + ''.join(body))
+    return dict(fn='shared_pair', template=template, selector='.x', decls=[dict(prop=p, value=v) for p, v in decl_list],
+                elems=specs, note='.x{%s} on %s' % (';'.join('%s:%s' % d for d in decl_list),
+                                                    [dict(p, **o) for o, p in elems]))
+
+
+def cases_shared(rng, n):
+    cases = [dict(c, fn='shared_pair') for c in corpus('shared')]
+    # the same two declarations on every order of (invalid, valid, undefined, other valid)
+    kinds = [{'--m': 'red', '--p': 'solid'}, {'--m': '30px', '--p': '4px 8px'}, {}, {'--m': '1em', '--p': '0'}]
+    base = [('margin-left', 'var(--m)'), ('padding', 'var(--p) 2px')]
+    for perm in itertools.permutations(range(4)):
+        cases.append(shared_case(base, [(kinds[k], {}) for k in perm]))
+    cases.append(shared_case([('margin-left', 'var(--m, 9px)'), ('padding', 'var(--p) 2px'), ('border', 'var(--w) solid')],
+                             [({'--w': 'red'}, {'--m': 'red', '--p': 'solid'}), ({'--w': '3px'}, {'--m': 'red', '--p': '1px'}),
+                              ({'--m': '2px'}, {'--w': 'thin'})]))
+    while len(cases) < n:
+        k = rng.choice([1, 1, 2, 2, 3, 4])
+        decl_list = []
+        for p, v in rng.sample(SHARED_DECLS, 8):
+            if p not in [q for q, _ in decl_list]:
+                decl_list.append((p, v))
+            if len(decl_list) == k:
+                break
+        names = sorted({m.group(1) for _, v in decl_list for m in VAR_RE.finditer(v)})
+        elems = [gen_shared_values(rng, names) for _ in range(rng.choice([2, 3, 3, 4, 5]))]
+        if rng.random() < 0.5:
+            # the same element twice around the others: before and after
+            elems.append(elems[0])
+        cases.append(shared_case(decl_list, elems))
+    return cases
+
+
+def stream_shared(run, cases, outs):
+    seen = set()
+    differ, nboxes, nelems, verdicts = 0, 0, 0, [0, 0]
+    for c, (st, o) in zip(cases, outs):
+        data = {'stream': 'shared', 'case': {k: v for k, v in c.items() if k != 'fn'}}
+        if st == 'timeout':
+            fail(run, 'render does not end: %s' % c['note'][:300], data, signature='timeout:render')
+            continue
+        if st == 'exc':
+            sig = crash_sig(o['site'], o)
+            if sig not in seen:
+                seen.add(sig)
+                fail(run, 'rendering raised %s at %s (%s)' % (o['type'], o['site'], c['note'][:200]), dict(data, exc=o),
+                     signature=sig)
+            continue
+        nboxes += o['boxes']
+        nelems += len(c['elems'])
+        for v in o['valid']:
+            verdicts[1 if v else 0] += 1
+        if not o['same']:
+            differ += 1
+            for sig in (o.get('mechanism') or ['meta:var-shared']):
+                if sig not in seen:
+                    seen.add(sig)
+                    fail(run, 'one rule with var() on several elements differs from the per-element substitution: %s: %s'
+                         % (c['note'][:400], o['diff']), dict(data, diff=o['diff'], a=o['a'], b=o['b']), signature=sig)
+    run.count('var-shared', len(cases), [c['note'] for c in cases], samples=[cases[-1]['note'][:300]] if cases else [])
+    run.stream_info('var-shared', differing=differ, elements=nelems, boxes=nboxes,
+                    substituted_declarations_invalid_valid=verdicts,
+                    rule='ONE rule .x{...} with 1..4 declarations containing var() (37 templates: longhands, four-sides, '
+                         'border, border-<side>, flex, columns, font, border-radius, text-decoration, list-style, background, '
+                         'outline, gap) applies to 2..6 elements whose custom properties differ (42 values of all types: valid '
+                         'for some, invalid for others; own, inherited from their own parent, overriding it, undefined with and '
+                         'without fallback), in random order, the first element often repeated last; all 24 orders of '
+                         '(invalid, valid, undefined, other valid) as fixed cases. Reference: the same document with one rule '
+                         'per element, each declaration textually substituted when the implementation accepts the literal '
+                         'declaration, else every longhand unset (initial/inherit); after a rule giving all longhands other '
+                         'values. Whole-document fingerprint (geometry + every computed value of every box)')
+
+
+def gen_pending_case(rng):
+    prop, value = rng.choice(SHARED_DECLS)
+    names = sorted({m.group(1) for m in VAR_RE.finditer(value)})
+    calls = []
+    for _ in range(rng.choice([2, 3, 4, 6, 8])):
+        env = {}
+        for nm in names:
+            if rng.random() < 0.8:
+                env[nm] = rng.choice(SHARED_VALUES)
+        calls.append({'env': env, 'key': rng.randrange(12)})
+    if rng.random() < 0.4:
+        calls.append(dict(calls[0]))          # the first call again, after the others
+    return {'fn': 'pending_seq', 'name': prop, 'value': value, 'calls': calls}
+
+
+def cases_pending(rng, n):
+    fixed = [{'fn': 'pending_seq', 'name': 'padding', 'value': 'var(--p) 2px',
+              'calls': [{'env': {'--p': 'solid'}, 'key': 0}, {'env': {'--p': '4px 8px'}, 'key': 0},
+                        {'env': {'--p': '4px 8px'}, 'key': 3}, {'env': {'--p': 'solid'}, 'key': 1}]},
+             {'fn': 'pending_seq', 'name': 'margin-left', 'value': 'var(--m)',
+              'calls': [{'env': {'--m': 'red'}, 'key': 0}, {'env': {'--m': '30px'}, 'key': 0}, {'env': {}, 'key': 0},
+                        {'env': {'--m': '30px'}, 'key': 0}]},
+             {'fn': 'pending_seq', 'name': 'padding', 'value': '2px var(--p)',
+              'calls': [{'env': {'--p': '4px'}, 'key': 1}, {'env': {'--p': 'solid'}, 'key': 0},
+                        {'env': {'--p': 'solid'}, 'key': 1}]}]
+    return ([dict(c, fn='pending_seq') for c in corpus('pending')] + fixed + [gen_pending_case(rng) for _ in range(n)])
+
+
+PENDING_TYPE = ('bool * string * list (bool * (list (string * Z) * nat) * string) * list (nat * Z * bool) * '
+                'list (nat * Z * bool)')
+
+
+def stream_pending(run, cases, outs):
+    IN.reset()
+    coq, kept = [], []
+    for c, (st, o) in zip(cases, outs):
+        if st != 'ok':
+            fail(run, 'sequence of Pending.solve calls: harness call failed: %s' % (o,),
+                 {'stream': 'pending', 'case': c, 'outcome': o}, signature='crash:pending-harness')
+            continue
+        if o is None:
+            continue
+        calls = '[%s]' % '; '.join('(%s, ([%s], %s), %s)' % (
+            blit(e), '; '.join('(%s, %d)' % (slit(k), v) for k, v in items), nlit(end), slit(key))
+            for e, items, end, key in o['calls'])
+        seq = lambda l: '[%s]' % '; '.join('(%s, %d, %s)' % (nlit(code), v, blit(w > 0)) for code, v, w in l)
+        coq.append('(%s, %s, %s, %s, %s)' % (blit(o['is_property']), slit(o['shorthand']), calls, seq(o['shared']),
+                                              seq(o['fresh'])))
+        kept.append((c, o))
+    try:
+        masks = common.eval_cases('c07pend', HDR + 'Require Import WV.model.C07Pending.\n' + IN.preamble(), PENDING_TYPE,
+                                  coq, 'pending_judge', per_file=max(60, len(coq) // 16 + 1))
+    except RuntimeError as exc:
+        run.oblige('corr:pending-direct', False, str(exc))
+        return
+    mism = [(c['name'], c['value'], c['calls'], o['shared']) for (c, o), m in zip(kept, masks) if m & 1]
+    run.oblige('corr:pending-direct(model run of Pending.solve vs sequences of solve() on one real Pending object)', not mism,
+               'first disagreements: %s' % json.dumps(mism[:2])[:3000])
+    seen = set()
+    for (c, o), m in zip(kept, masks):
+        for bit, sig, what in ((2, 'pending:history-dependence',
+                                'a solve() call on the shared Pending object gives another result than on a fresh object: '
+                                'what one element gets depends on the elements before it'),
+                               (4, 'pending:warned-twice', 'more than one warning for one declaration'),
+                               (8, 'var:shorthand-partial',
+                                'the expander refuses the substituted tokens, yet some longhand gets a value')):
+            if m & bit and sig not in seen:
+                seen.add(sig)
+                k = next((i for i, (a, b) in enumerate(zip(o['shared'], o['fresh'])) if a[:2] != b[:2]), None)
+                fail(run, '`%s: %s`: %s (calls %s; shared object: %s; fresh objects: %s%s)'
+                     % (c['name'], c['value'], what, [(x['env'], o['keys'][x['key'] % len(o['keys'])]) for x in c['calls']],
+                        [x[:1] + x[2:] for x in o['shared']], [x[:1] + x[2:] for x in o['fresh']],
+                        '; first difference at call %d' % k if k is not None else ''),
+                     {'stream': 'pending', 'case': {k_: v for k_, v in c.items() if k_ != 'fn'}, 'shared': o['shared'],
+                      'fresh': o['fresh']}, signature=sig)
+    run.count('pending-direct', len(kept), [(c['name'], c['value'], json.dumps(c['calls'], sort_keys=True)) for c, _ in kept],
+              samples=[{'decl': '%s: %s' % (kept[-1][0]['name'], kept[-1][0]['value']), 'calls': kept[-1][0]['calls'][:3]}]
+              if kept else [])
+    ncalls = sum(len(o['shared']) for _, o in kept)
+    ninv = sum(1 for _, o in kept for x in o['shared'] if x[0] == 0)
+    run.stream_info('pending-direct', calls=ncalls, invalid_calls=ninv,
+                    invalid_then_valid=sum(1 for _, o in kept if any(a[0] == 0 and b[0] == 2 for a, b in
+                                                                     zip(o['fresh'], o['fresh'][1:]))),
+                    rule='the Pending object that preprocess_declarations makes for one of 37 declarations with var(); 2..9 '
+                         'calls of solve() on that ONE object, each with another set of custom properties (42 values, undefined '
+                         'ones) and another longhand, the first call often repeated last; compared with the model\'s state '
+                         'machine (validate() traced as a generator: items yielded, how it ends) and with the same calls on '
+                         'fresh objects; warnings counted')
+
+
 # ================================================================================ 6. spec probes
 
 # (declaration, is it valid CSS for a property WeasyPrint supports?, signature of the open finding it is the witness
@@ -1424,7 +1659,7 @@ def stream_probes(run, cases, outs):
 def check(run):
     rng = random.Random(run.seed * 7919 + 7)
     thorough = run.tier == 'thorough'
-    common.prove(run, 'C07', ['model/C07Full.vo', 'model/C07Var.vo', 'model/C07Units.vo'])
+    common.prove(run, 'C07', ['model/C07Full.vo', 'model/C07Var.vo', 'model/C07Units.vo', 'model/C07Pending.vo'])
     run.trusted += ['Coq 8.16.1 kernel (coqc); vm_compute for the cases.v evaluation',
                     'tinycss2 (tokeniser/parser) is taken as given: the models start from its nodes',
                     'harness/impl_c07.py: conversion of tinycss2 nodes and validated values (canonical text, sha1) '
@@ -1450,7 +1685,9 @@ def check(run):
                ('units', cases_units(rng, 4000 if thorough else 300)),
                ('var', cases_var(run, rng, 20000 if thorough else 1500)),
                ('render', cases_render(rng, gr, 8000 if thorough else 500)),
-               ('probes', cases_probes())]
+               ('probes', cases_probes()),
+               ('pending', cases_pending(rng, 6000 if thorough else 700)),
+               ('shared', cases_shared(rng, 1500 if thorough else 130))]
     allc = [c for _, cs in streams for c in cs]
     outs = run_multi(allc, limit=240)
     res, k = {}, 0
@@ -1463,6 +1700,8 @@ def check(run):
     stream_var(run, *res['var'])
     stream_render(run, *res['render'])
     stream_probes(run, *res['probes'])
+    stream_pending(run, *res['pending'])
+    stream_shared(run, *res['shared'])
 
 
 def replay(data):
@@ -1493,6 +1732,12 @@ def replay(data):
     elif stream == 'units':
         cases = [dict(d['case'], fn='length_case')]
         stream_units(run, reg, cases, run_multi(cases))
+    elif stream == 'pending':
+        cases = [dict(d['case'], fn='pending_seq')]
+        stream_pending(run, cases, run_multi(cases))
+    elif stream == 'shared':
+        cases = [dict(d['case'], fn='shared_pair')]
+        stream_shared(run, cases, run_multi(cases, limit=240))
     elif stream == 'render':
         cases = [dict(d['case'], fn='render_pair')]
         stream_render(run, cases, run_multi(cases, limit=240))
